@@ -312,3 +312,325 @@ func LockTrace() []string { panic("verifrt.LockTrace: engine only") }
 
 // JSONEncoded returns every value handed to a (*json.Encoder).Encode so far (engine only; the encoder is a stub).
 func JSONEncoded() []any { panic("verifrt.JSONEncoded: engine only") }
+
+// ---------------------------------------------------------------- JSON string-map codec model
+//
+// encoding/json reaches its string encoder/decoder through reflection, which the engine does not execute.
+// For the one shape hookaido stores (map[string]string: headers_json, trace_json) the two functions below
+// mirror json.Marshal and json.Unmarshal; the engine routes those calls here (engine only; natively the real
+// encoding/json runs). They are validated natively against the real encoding/json on every check that
+// uses them (rt/validate: every code point, every 1- and 2-byte string, random documents).
+
+const jsonHex = "0123456789abcdef"
+
+// JSONModelAppendString mirrors encoding/json's string encoder (HTML escaping on, as json.Marshal has it).
+func JSONModelAppendString(dst []byte, s string) []byte {
+	dst = append(dst, '"')
+	for i := 0; i < len(s); {
+		b := s[i]
+		if b < 0x80 {
+			switch {
+			case b == '\\' || b == '"':
+				dst = append(dst, '\\', b)
+			case b == '\b':
+				dst = append(dst, '\\', 'b')
+			case b == '\f':
+				dst = append(dst, '\\', 'f')
+			case b == '\n':
+				dst = append(dst, '\\', 'n')
+			case b == '\r':
+				dst = append(dst, '\\', 'r')
+			case b == '\t':
+				dst = append(dst, '\\', 't')
+			case b < 0x20 || b == '<' || b == '>' || b == '&':
+				dst = append(dst, '\\', 'u', '0', '0', jsonHex[b>>4], jsonHex[b&0xf])
+			default:
+				dst = append(dst, b)
+			}
+			i++
+			continue
+		}
+		r, n := jsonDecodeRune(s[i:])
+		if r == 0xFFFD && n == 1 {
+			dst = append(dst, '\\', 'u', 'f', 'f', 'f', 'd')
+			i++
+			continue
+		}
+		if r == 0x2028 || r == 0x2029 {
+			dst = append(dst, '\\', 'u', '2', '0', '2', jsonHex[r&0xf])
+			i += n
+			continue
+		}
+		dst = append(dst, s[i:i+n]...)
+		i += n
+	}
+	return append(dst, '"')
+}
+
+// jsonDecodeRune is utf8.DecodeRuneInString written out (invalid or short sequences: U+FFFD, width 1).
+func jsonDecodeRune(s string) (rune, int) {
+	n := len(s)
+	if n < 1 {
+		return 0xFFFD, 0
+	}
+	b0 := s[0]
+	switch {
+	case b0 < 0x80:
+		return rune(b0), 1
+	case b0 >= 0xC2 && b0 <= 0xDF:
+		if n >= 2 && s[1]&0xC0 == 0x80 {
+			return rune(b0&0x1F)<<6 | rune(s[1]&0x3F), 2
+		}
+	case b0 >= 0xE0 && b0 <= 0xEF:
+		if n >= 3 && s[1]&0xC0 == 0x80 && s[2]&0xC0 == 0x80 {
+			lo, hi := byte(0x80), byte(0xBF)
+			if b0 == 0xE0 {
+				lo = 0xA0
+			}
+			if b0 == 0xED {
+				hi = 0x9F
+			}
+			if s[1] >= lo && s[1] <= hi {
+				return rune(b0&0x0F)<<12 | rune(s[1]&0x3F)<<6 | rune(s[2]&0x3F), 3
+			}
+		}
+	case b0 >= 0xF0 && b0 <= 0xF4:
+		if n >= 4 && s[1]&0xC0 == 0x80 && s[2]&0xC0 == 0x80 && s[3]&0xC0 == 0x80 {
+			lo, hi := byte(0x80), byte(0xBF)
+			if b0 == 0xF0 {
+				lo = 0x90
+			}
+			if b0 == 0xF4 {
+				hi = 0x8F
+			}
+			if s[1] >= lo && s[1] <= hi {
+				return rune(b0&0x07)<<18 | rune(s[1]&0x3F)<<12 | rune(s[2]&0x3F)<<6 | rune(s[3]&0x3F), 4
+			}
+		}
+	}
+	return 0xFFFD, 1
+}
+
+func jsonAppendRune(dst []byte, r rune) []byte {
+	switch {
+	case r < 0x80:
+		return append(dst, byte(r))
+	case r < 0x800:
+		return append(dst, 0xC0|byte(r>>6), 0x80|byte(r)&0x3F)
+	case r < 0x10000:
+		return append(dst, 0xE0|byte(r>>12), 0x80|byte(r>>6)&0x3F, 0x80|byte(r)&0x3F)
+	}
+	return append(dst, 0xF0|byte(r>>18), 0x80|byte(r>>12)&0x3F, 0x80|byte(r>>6)&0x3F, 0x80|byte(r)&0x3F)
+}
+
+// JSONModelMarshalStringMap mirrors json.Marshal(map[string]string): keys in byte order, no white space; nil map = null.
+func JSONModelMarshalStringMap(m map[string]string) []byte {
+	if m == nil {
+		return []byte("null")
+	}
+	keys := make([]string, 0, len(m))
+	for k := range m {
+		keys = append(keys, k)
+	}
+	for i := 1; i < len(keys); i++ {
+		for j := i; j > 0 && keys[j] < keys[j-1]; j-- {
+			keys[j], keys[j-1] = keys[j-1], keys[j]
+		}
+	}
+	out := []byte{'{'}
+	for i, k := range keys {
+		if i > 0 {
+			out = append(out, ',')
+		}
+		out = JSONModelAppendString(out, k)
+		out = append(out, ':')
+		out = JSONModelAppendString(out, m[k])
+	}
+	return append(out, '}')
+}
+
+func jsonSpace(b byte) bool { return b == ' ' || b == '\t' || b == '\r' || b == '\n' }
+
+func jsonHexVal(b byte) int {
+	switch {
+	case b >= '0' && b <= '9':
+		return int(b - '0')
+	case b >= 'a' && b <= 'f':
+		return int(b-'a') + 10
+	case b >= 'A' && b <= 'F':
+		return int(b-'A') + 10
+	}
+	return -1
+}
+
+func jsonU4(d []byte, i int) (rune, bool) {
+	if i+4 > len(d) {
+		return 0, false
+	}
+	var r rune
+	for k := 0; k < 4; k++ {
+		h := jsonHexVal(d[i+k])
+		if h < 0 {
+			return 0, false
+		}
+		r = r<<4 | rune(h)
+	}
+	return r, true
+}
+
+// jsonString parses a JSON string literal starting at d[i] == '"'; returns the decoded text and the index after it.
+func jsonString(d []byte, i int) (string, int, bool) {
+	if i >= len(d) || d[i] != '"' {
+		return "", i, false
+	}
+	i++
+	var out []byte
+	for {
+		if i >= len(d) {
+			return "", i, false
+		}
+		b := d[i]
+		switch {
+		case b == '"':
+			return string(out), i + 1, true
+		case b < 0x20:
+			return "", i, false
+		case b == '\\':
+			if i+1 >= len(d) {
+				return "", i, false
+			}
+			e := d[i+1]
+			i += 2
+			switch e {
+			case '"', '\\', '/':
+				out = append(out, e)
+			case 'b':
+				out = append(out, '\b')
+			case 'f':
+				out = append(out, '\f')
+			case 'n':
+				out = append(out, '\n')
+			case 'r':
+				out = append(out, '\r')
+			case 't':
+				out = append(out, '\t')
+			case 'u':
+				r, ok := jsonU4(d, i)
+				if !ok {
+					return "", i, false
+				}
+				i += 4
+				if r >= 0xD800 && r < 0xE000 {
+					// surrogate: a valid pair combines, anything else becomes U+FFFD (the second escape is then read on its own)
+					r2, ok2 := rune(0), false
+					if r < 0xDC00 && i+6 <= len(d) && d[i] == '\\' && d[i+1] == 'u' {
+						r2, ok2 = jsonU4(d, i+2)
+					}
+					if ok2 && r2 >= 0xDC00 && r2 < 0xE000 {
+						r = (r-0xD800)<<10 | (r2 - 0xDC00) + 0x10000
+						i += 6
+					} else {
+						r = 0xFFFD
+					}
+				}
+				out = jsonAppendRune(out, r)
+			default:
+				return "", i, false
+			}
+		case b < 0x80:
+			out = append(out, b)
+			i++
+		default:
+			r, n := jsonDecodeRune(string(d[i:]))
+			if r == 0xFFFD && n == 1 {
+				out = append(out, 0xEF, 0xBF, 0xBD)
+			} else {
+				out = append(out, d[i:i+n]...)
+			}
+			i += n
+		}
+	}
+}
+
+// JSONModelUnmarshalStringMap mirrors json.Unmarshal(data, &m) for m map[string]string (initially nil):
+// ok=false where json.Unmarshal returns an error (syntax error, or a value that is not a string or null).
+func JSONModelUnmarshalStringMap(d []byte) (map[string]string, bool) {
+	i := 0
+	for i < len(d) && jsonSpace(d[i]) {
+		i++
+	}
+	if i+4 <= len(d) && string(d[i:i+4]) == "null" {
+		i += 4
+		for i < len(d) && jsonSpace(d[i]) {
+			i++
+		}
+		return nil, i == len(d)
+	}
+	if i >= len(d) || d[i] != '{' {
+		return nil, false
+	}
+	i++
+	m := map[string]string{}
+	for i < len(d) && jsonSpace(d[i]) {
+		i++
+	}
+	if i < len(d) && d[i] == '}' {
+		i++
+	} else {
+		for {
+			for i < len(d) && jsonSpace(d[i]) {
+				i++
+			}
+			k, j, ok := jsonString(d, i)
+			if !ok {
+				return nil, false
+			}
+			i = j
+			for i < len(d) && jsonSpace(d[i]) {
+				i++
+			}
+			if i >= len(d) || d[i] != ':' {
+				return nil, false
+			}
+			i++
+			for i < len(d) && jsonSpace(d[i]) {
+				i++
+			}
+			if i+4 <= len(d) && string(d[i:i+4]) == "null" {
+				i += 4
+				if _, seen := m[k]; !seen {
+					m[k] = ""
+				}
+			} else {
+				v, j, ok := jsonString(d, i)
+				if !ok {
+					return nil, false // (numbers, booleans, arrays, objects: a type error; malformed text: a syntax error)
+				}
+				i = j
+				m[k] = v
+			}
+			for i < len(d) && jsonSpace(d[i]) {
+				i++
+			}
+			if i < len(d) && d[i] == ',' {
+				i++
+				continue
+			}
+			if i < len(d) && d[i] == '}' {
+				i++
+				break
+			}
+			return nil, false
+		}
+	}
+	for i < len(d) && jsonSpace(d[i]) {
+		i++
+	}
+	if i != len(d) {
+		return nil, false
+	}
+	return m, true
+}
+
+// JSONModel turns on the model codec for json.Marshal/json.Unmarshal of map[string]string (engine only; natively a no-op).
+func JSONModel() {}
